@@ -3,7 +3,7 @@
 Three small specifications are enumerated by TLC and used as case generators with their expected answers:
 PathStrP (join / getPathName / getParentDirectory laws over all directory strings of <= 4 characters from
 {'/','a','b','.',' '} and names of <= 2 characters), PathTreeP (every directory tree of <= 4 nodes below the
-root, depth <= 3, names with a colon in second position, a space, a leading dot, two leading dots and non-ASCII bytes, file sizes 0/1/5000) and VisitorP
+root, depth <= 3, names with a colon in second position, a space, a leading dot, two leading dots and non-ASCII bytes, file sizes 0/1/5000 and, in every seventh tree, sparse files of 3 GiB + 5000 bytes) and VisitorP
 (nested DirectoryVisitors as a stack of saved working directories). The harness materialises each case and
 compares the real answers, cross-checked against std::filesystem. Exploration level.
 """
@@ -91,18 +91,21 @@ def check(pid, tier, seed):
     for ti, st in enumerate(trees):
         tree = {tuple(k): v for k, v in st["tree"].items()}
         order = sorted(tree, key=lambda p: (len(p), p))
-        lines.append("X t%d mode=tree dir=%s" % (ti, scratch))
+        big = 1 if ti % 7 == 3 else 0   # every seventh tree: "large files" (sparse, 3 GiB + 5000 bytes each)
+        lines.append("X t%d mode=tree dir=%s big=%d" % (ti, scratch, big))
         for p in order:
             if p == ():
                 continue
             lines.append("S node=%s kind=%s" % (".".join(map(str, p)), tree[p]))
         lines.append("E")
-        meta["t%d" % ti] = tree
+        meta["t%d" % ti] = (tree, big)
     res = common.run_harness(exe, "\n".join(lines) + "\n")
 
     def total(tree, p):
         return sum(SIZES[k] for q, k in tree.items() if k != "dir" and q[:len(p)] == p)
-    for xid, tree in meta.items():
+    BIGSZ = (3 << 30) + 5000
+    for xid, (tree, big) in meta.items():
+        SIZES["f5000"] = BIGSZ if big else 5000
         recs = res.get(xid, [])
         evaluations += 1
         distinct.add(("tree", len(tree), max(len(p) for p in tree), tuple(sorted(tree.values()))))
@@ -128,13 +131,16 @@ def check(pid, tier, seed):
             for f, v in want.items():
                 if r.get(f) != v and prob is None:
                     prob = "%s (%s): %s = %s, the tree says %s" % (where, k, f, r.get(f), v)
+        fd = next((r for r in recs if r.get("e") == "Fds"), None)
+        if fd and fd["f1"] > fd["f0"] and fd["f2"] > fd["f1"] and prob is None:
+            prob = "(tree): every round of exists/isFile/isDirectory/size/listChildren over the tree leaves more descriptors open (%d -> %d -> %d): a tree large enough exhausts them and the answers stop agreeing with the file system" % (fd["f0"], fd["f1"], fd["f2"])
         m = next((r for r in recs if r.get("e") == "Missing"), None)
         if prob is None and m is not None and (m["exists"] or m["file"] or m["dir"] or not m["size_throws"]):
             prob = "a missing entry: exists=%s isFile=%s isDirectory=%s size() throws NotFound=%s" % (m["exists"], m["file"], m["dir"], m["size_throws"])
         if prob:
             desc = sorted(("/".join(NAMES[i] for i in p), k) for p, k in tree.items() if p)
             verdict.violation("path[tree] %s" % " ".join(prob.split(":")[-1].split()[:3]), prob, {"component": "path", "part": "tree", "tree": desc})
-    samples.append({"part": "tree", "tree": sorted(("/".join(NAMES[i] for i in p), k) for p, k in list(meta.values())[len(meta) // 2].items() if p)})
+    samples.append({"part": "tree", "tree": sorted(("/".join(NAMES[i] for i in p), k) for p, k in list(meta.values())[len(meta) // 2][0].items() if p)})
     # ---- (c) nested visitors ---------------------------------------------------------------
     vcfg = "MC_Visitor.cfg" if tier == "quick" else "MC_Visitor_thorough.cfg"
     dot, _ = common.dump_graph(SPEC, "VisitorP.tla", vcfg, "VisitorP-" + vcfg)
